@@ -56,7 +56,7 @@ func (r c25Row) String() string {
 }
 
 var c25TokenClasses = []string{"none", "empty", "prefix", "suffix", "case-variant", "exact", "exact+space", "space+exact",
-	"exact-doubled", "superstring", "in-api-key-header-only", "in-authorization-header-only", "in-query-string-only"}
+	"exact-doubled", "superstring", "two-chars-swapped", "case-flipped-in-two-places", "in-api-key-header-only", "in-authorization-header-only", "in-query-string-only"}
 
 // route classes: name -> (data-bearing when authorised?)
 var c25Routes = []struct {
@@ -117,6 +117,38 @@ func c25RouteData(name string) bool {
 	return false
 }
 
+// c25SwapTwo exchanges two different characters of s.
+func c25SwapTwo(s string, rng *verifkit.Rand) string {
+	b := []byte(s)
+	for try := 0; try < 200; try++ {
+		i, j := rng.Intn(len(b)), rng.Intn(len(b))
+		if b[i] != b[j] {
+			b[i], b[j] = b[j], b[i]
+			return string(b)
+		}
+	}
+	b[0], b[1] = b[1], b[0] // tokens start with two different letters
+	return string(b)
+}
+
+// c25FlipTwo flips the case of exactly the first two letters of s.
+func c25FlipTwo(s string) string {
+	b := []byte(s)
+	n := 0
+	for i, c := range b {
+		if n == 2 {
+			break
+		}
+		switch {
+		case c >= 'a' && c <= 'z':
+			b[i], n = c-32, n+1
+		case c >= 'A' && c <= 'Z':
+			b[i], n = c+32, n+1
+		}
+	}
+	return string(b)
+}
+
 func c25SwapCase(s string) string {
 	b := []byte(s)
 	for i, c := range b {
@@ -146,6 +178,12 @@ func TestVerif_C25(t *testing.T) {
 
 	b := e3New(t, E3Options{Configure: func(c *config.MockConfig) { c.GetHoneycombAPIVal = upstream.URL }})
 	defer b.Close()
+	// the routers read the configuration through a wrapper that gives the sampler rules
+	// sentinel dataset / environment names (MockConfig hard-codes "dataset1")
+	names := &c25NamesConfig{MockConfig: b.Cfg}
+	for _, l := range []E3Listener{E3Incoming, E3Peer} {
+		b.routers[l].Config = names
+	}
 
 	rows := c25Table()
 	reps := run.N(2, 12)
@@ -158,6 +196,8 @@ func TestVerif_C25(t *testing.T) {
 		sentMetaID, sentMetaHash := s("metaid"), s("metahash")
 		sentPeer := "http://" + s("peerhost") + ".verif.invalid:8081"
 		sentSendKey, sentRecvKey := s("sendkey"), s("recvkey")
+		sentDataset, sentEnv := s("dataset"), s("environment")
+		names.set(sentDataset, sentEnv)
 		// the configured token: letters and digits in both cases, sometimes with punctuation
 		configured := ""
 		if row.Configured {
@@ -201,6 +241,10 @@ func TestVerif_C25(t *testing.T) {
 			clientToken = base + base
 		case "superstring":
 			clientToken = "x" + base + "y"
+		case "two-chars-swapped": // same length, byte differences XOR to zero
+			clientToken = c25SwapTwo(base, rng)
+		case "case-flipped-in-two-places": // same length, two differences of 0x20: XOR zero
+			clientToken = c25FlipTwo(base)
 		case "in-api-key-header-only":
 			sendsHeader = false
 			req.Header.Set(types.APIKeyHeader, base)
@@ -246,7 +290,8 @@ func TestVerif_C25(t *testing.T) {
 		case "configmetadata":
 			req.Path, wantSentinel = "/query/configmetadata", sentMetaID
 		case "unknown-query-path":
-			req.Path = "/query/" + verifkit.Pick(rng, "peers", "config", "rules", "trace", "allrules", "rules/json", "configmetadata/x")
+			req.Path = "/query/" + verifkit.Pick(rng, "peers", "config", "rules", "trace", "trace/", "allrules", "allrules/", "rules/json", "rules/yaml/", "rules/json/"+dataset+"/extra",
+				"configmetadata/x", "configmetadata/", "allrules/json/extra", "trace/"+traceID+"/x", "x"+rng.Hex(5), "rules/toml", "datasets")
 		case "query-root":
 			req.Path = "/query/"
 		}
@@ -263,7 +308,7 @@ func TestVerif_C25(t *testing.T) {
 		wit := func() map[string]any {
 			return map[string]any{"row": row.String(), "configured_token": configured, "client_token": clientToken, "token_header_sent": sendsHeader,
 				"request": req.Witness(), "response": resp, "sentinels": map[string]string{"rule_field": sentRuleField, "sampler_name": sentSamplerName,
-					"meta_id": sentMetaID, "meta_hash": sentMetaHash, "owner": sentPeer, "send_key": sentSendKey, "receive_key": sentRecvKey}}
+					"meta_id": sentMetaID, "meta_hash": sentMetaHash, "owner": sentPeer, "send_key": sentSendKey, "receive_key": sentRecvKey, "dataset": sentDataset, "environment": sentEnv}}
 		}
 		routeClass := strings.SplitN(row.Route, "-", 2)[0]
 		sig := func(kind string) string { return "C25/" + routeClass + "/" + kind }
@@ -278,7 +323,8 @@ func TestVerif_C25(t *testing.T) {
 		leaks := func() []string {
 			var out []string
 			for name, sv := range map[string]string{"rules field name": sentRuleField, "sampler name": sentSamplerName, "config metadata id": sentMetaID,
-				"config metadata hash": sentMetaHash, "owning node address": sentPeer, "SendKey": sentSendKey, "receive key": sentRecvKey} {
+				"config metadata hash": sentMetaHash, "owning node address": sentPeer, "SendKey": sentSendKey, "receive key": sentRecvKey,
+				"configured dataset name": sentDataset, "configured environment name": sentEnv, "sampler rules content (SampleRate/FieldList)": "FieldList"} {
 				if strings.Contains(hay, sv) {
 					out = append(out, name)
 				}
@@ -470,6 +516,35 @@ func TestVerif_C25(t *testing.T) {
 				fmt.Sprintf("GET %s (status %d, %s token, configured token %q -> %q during the request) reveals %v", req.Path, resp.Status, row.Token, before, after, leaked), wit)
 		}
 	})
+}
+
+// c25NamesConfig gives the mock's sampler rules configurable dataset/environment names.
+type c25NamesConfig struct {
+	*config.MockConfig
+	mu    sync.Mutex
+	names []string
+}
+
+func (f *c25NamesConfig) set(names ...string) {
+	f.mu.Lock()
+	f.names = names
+	f.mu.Unlock()
+}
+
+func (f *c25NamesConfig) GetAllSamplerRules() *config.V2SamplerConfig {
+	v := f.MockConfig.GetAllSamplerRules()
+	if v == nil {
+		return nil
+	}
+	f.mu.Lock()
+	defer f.mu.Unlock()
+	out := &config.V2SamplerConfig{RulesVersion: v.RulesVersion, Samplers: map[string]*config.V2SamplerChoice{}}
+	for _, choice := range v.Samplers {
+		for _, n := range f.names {
+			out.Samplers[n] = choice
+		}
+	}
+	return out
 }
 
 // c25FlipConfig is the Config the routers of the reload pass read: a MockConfig whose
